@@ -2,7 +2,7 @@
 C14 - probed system description and derived machine model match the machine.
 Property theorems; long proofs live in RigModel/Lemmas/C14.lean.
 -/
-import RigModel.Lemmas.C14j
+import RigModel.Lemmas.C14m
 set_option linter.unusedSimpArgs false
 set_option linter.unusedVariables false
 
@@ -435,6 +435,58 @@ example : exMachine.Serves exRd ∧ (∃ xy, exMachine.listed xy = true) ∧
       simp only [SPINNAKER_RTR_P2P, P2P_REGION, SV_BASE, SV_P2P_DIMS_OFF] at *
       omega
     simp only [exRd, this, if_false]
+
+/-! ## the oracles the harness evaluates on the implementation's outputs -/
+
+/-- **`sysinfo_ok` is exact.** The predicate the harness evaluates on the `SystemInfo` returned by the real
+`get_system_info` (a) accepts only descriptions that are exact up to record order: extent = one more than
+the largest listed coordinates, distinct keys, and the records are precisely the listed chips that answer,
+each with the view of its state; (b) accepts what the model of `get_system_info` returns. -/
+theorem sysinfo_oracle_exact (m : MachineState) :
+    (∀ si, sysinfoOk m si = true →
+      si.width = maxList ((listedCoords m).map (·.1)) + 1 ∧
+      si.height = maxList ((listedCoords m).map (·.2)) + 1 ∧
+      (si.chips.map (·.1)).Nodup ∧
+      (∀ xy ci, (xy, ci) ∈ si.chips ↔
+        ∃ st, m.listed xy = true ∧ m.chips.lookup xy = some st ∧ ci = chipView st)) ∧
+    ((∃ xy, m.listed xy = true) → sysinfoOk m m.sysInfo = true) ∧
+    (∀ xy, xy ∈ listedCoords m ↔ m.listed xy = true) :=
+  ⟨sysinfoOk_complete m, sysinfoOk_sound m, mem_listedCoords m⟩
+
+/-- **`reservations_ok` is exact.** For descriptions with at most 18 core slots per chip, the finite check
+the harness runs on the constraints returned by the real `build_core_constraints` holds iff reservations
+name only described chips and on every described chip EVERY core number is covered exactly once when busy
+and never otherwise; and it accepts the model's constraints. -/
+theorem reservations_oracle_exact (si : SysInfo)
+    (h18 : ∀ xy ci, (xy, ci) ∈ si.chips → ci.coreStates.length ≤ 18) :
+    (∀ rs, reservationsOk si rs = true ↔
+      (∀ r ∈ rs, ∀ c, r.chip = some c → si.has c = true) ∧
+      (∀ xy ci, (xy, ci) ∈ si.chips → ∀ p, coverCount rs xy p = if busy ci p = true then 1 else 0)) ∧
+    ((si.chips.map (·.1)).Nodup → reservationsOk si (coreConstraints si) = true) :=
+  ⟨fun rs => reservationsOk_iff si rs h18, fun hnd => reservationsOk_sound si hnd h18⟩
+
+/-- **`dead_ok` is exact.** For a description with distinct keys, the predicate evaluated on the collections
+returned by the real `dead_chips()` / `dead_links()` holds iff they are, as sets, the model's dead chips and
+dead links (characterised by `dead_chips_complement` / `dead_links_complement`). -/
+theorem dead_oracle_exact (si : SysInfo) (hnd : (si.chips.map (·.1)).Nodup) (dc : List (Nat × Nat))
+    (dl : List (Nat × Nat × Nat)) :
+    deadOk si dc dl = true ↔
+      (∀ x y, (x, y) ∈ dc ↔ (x, y) ∈ si.deadChips) ∧ (∀ x y l, (x, y, l) ∈ dl ↔ (x, y, l) ∈ si.deadLinks) :=
+  deadOk_iff si hnd dc dl
+
+/-- **`machine_ok` is exact.** The predicate evaluated on the `Machine` returned by the real `build_machine`
+holds iff the machine has the description's extent, inside it exactly the described chips are alive, and
+every described chip is present with exactly its working links 0..5 and exactly its probed core count / SDRAM
+/ SRAM; and it accepts the model's machine for every well-formed description. -/
+theorem machine_oracle_exact (si : SysInfo) :
+    (∀ m, machineOk si m = true ↔
+      m.width = si.width ∧ m.height = si.height ∧
+      (∀ x y, x < m.width → y < m.height → ((x, y) ∉ m.deadChips ↔ ∃ ci, ((x, y), ci) ∈ si.chips)) ∧
+      (∀ xy ci, (xy, ci) ∈ si.chips → m.chipOk xy = true ∧
+        (∀ l, l < 6 → (m.linkOk xy.1 xy.2 l = true ↔ l ∈ ci.links)) ∧
+        m.resources xy = (ci.numCores, ci.sdram, ci.sram))) ∧
+    (si.WF → machineOk si (buildMachine si) = true) :=
+  ⟨machineOk_iff si, machineOk_sound si⟩
 
 /-- non-vacuity of the hypotheses of `build_machine_exact` / `reservations_partition` / `contains_exact`: a
 two-chip description -/
